@@ -511,3 +511,105 @@ Proof.
   split; [exact c17s_unknown_key_ex|]. split; [exact c17s_missing_required_ex|].
   split; [exact (proj1 c17s_wrong_type_ex) | exact (proj1 (proj2 c17s_wrong_type_ex))].
 Qed.
+
+(* ------------------------------------------------------------------------------------------------------
+   ORDER-FREE forms (Proofs/C17StructPos.v).  The SDK ranges over the Go map PropertiesValue (random order), the
+   model walks the property list.  With a SINGLE fault - every OTHER property fine - the premises do not mention
+   where the faulty property stands in `props`: they are invariant under permutation of `props`, so the reported
+   path is the same for every order in which the properties can be visited.
+   ------------------------------------------------------------------------------------------------------ *)
+From Verif Require Import Proofs.C17StructPos.
+
+Theorem C17_struct_unserialize_single_fault : forall words pu f e id un props name p mapped t nl r rd x er,
+  Forall (fun kv => amem (fst kv) props = true) r ->
+  NoDup (map fst props) -> In (name, p) props ->
+  xobj_data f e props mapped r = Ok rd ->
+  (forall np, In np props -> np <> (name, p) -> xprop_fine words pu f e rd np) ->
+  alookup name rd = Some x -> p_disabled p = false ->
+  xunser words pu f e (p_type p) x = Err er ->
+  xunser words pu (S f) e (XObject id un props mapped) (obj_val t nl r) = Err (add_seg name er).
+Proof. exact struct_unser_single_fault. Qed.
+Print Assumptions C17_struct_unserialize_single_fault.
+
+Theorem C17_struct_validate_single_fault : forall words pu f e id un props name p si v sv x er,
+  xstruct_arg si v = Some sv -> has_fields si props ->
+  NoDup (map fst props) -> In (name, p) props ->
+  (forall np y, In np props -> np <> (name, p) -> xfield_value e si sv np = Some y ->
+                xvalidate words pu f e (p_type (snd np)) y = Ok tt) ->
+  xfield_value e si sv (name, p) = Some x ->
+  xvalidate words pu f e (p_type p) x = Err er ->
+  xvalidate words pu (S f) e (XObject id un props (Some si)) v = Err (add_seg name er).
+Proof. exact struct_validate_single_fault. Qed.
+Print Assumptions C17_struct_validate_single_fault.
+
+Theorem C17_struct_serialize_single_fault : forall words pu f e id un props name p si v sv x er,
+  xstruct_arg si v = Some sv -> has_fields si props ->
+  NoDup (map fst props) -> In (name, p) props ->
+  (forall np y, In np props -> np <> (name, p) -> xfield_value e si sv np = Some y ->
+                exists w, xserialize words pu f e (p_type (snd np)) y = Ok w) ->
+  xfield_value e si sv (name, p) = Some x ->
+  xserialize words pu f e (p_type p) x = Err er ->
+  xserialize words pu (S f) e (XObject id un props (Some si)) v = Err (add_seg name er).
+Proof. exact struct_serialize_single_fault. Qed.
+Print Assumptions C17_struct_serialize_single_fault.
+
+(* a single violated presence rule (missing required, required_if, required_if_not, conflicts) *)
+Theorem C17_struct_unserialize_single_rule : forall words pu f e id un props name p mapped t nl r0 rd,
+  Forall (fun kv => amem (fst kv) props = true) r0 ->
+  NoDup (map fst props) -> In (name, p) props ->
+  xobj_data f e props mapped r0 = Ok rd ->
+  (forall np, In np props -> xprop_fine words pu f e rd np) ->
+  (forall np, In np props -> np <> (name, p) -> xcheck_prop_rules (fun k => amem k rd) (fst np) (snd np) = Ok tt) ->
+  xcheck_prop_rules (fun k => amem k rd) name p <> Ok tt ->
+  xunser words pu (S f) e (XObject id un props mapped) (obj_val t nl r0) = Err (cerr_at [name] EPresence).
+Proof. exact struct_unser_single_rule. Qed.
+Print Assumptions C17_struct_unserialize_single_rule.
+
+Theorem C17_struct_validate_single_rule : forall words pu f e id un props name p si v sv,
+  xstruct_arg si v = Some sv -> has_fields si props ->
+  NoDup (map fst props) -> In (name, p) props ->
+  (forall np y, In np props -> xfield_value e si sv np = Some y -> xvalidate words pu f e (p_type (snd np)) y = Ok tt) ->
+  (forall np, In np props -> np <> (name, p) ->
+              xcheck_prop_rules (fun k => amem k (xpresent e si sv props)) (fst np) (snd np) = Ok tt) ->
+  xcheck_prop_rules (fun k => amem k (xpresent e si sv props)) name p <> Ok tt ->
+  xvalidate words pu (S f) e (XObject id un props (Some si)) v = Err (cerr_at [name] EPresence).
+Proof. exact struct_validate_single_rule. Qed.
+Print Assumptions C17_struct_validate_single_rule.
+
+Theorem C17_struct_serialize_single_rule : forall words pu f e id un props name p si v sv,
+  xstruct_arg si v = Some sv -> has_fields si props ->
+  NoDup (map fst props) -> In (name, p) props ->
+  (forall np y, In np props -> xfield_value e si sv np = Some y -> exists w, xserialize words pu f e (p_type (snd np)) y = Ok w) ->
+  (forall np, In np props -> np <> (name, p) ->
+              xcheck_prop_rules (fun k => amem k (xpresent e si sv props)) (fst np) (snd np) = Ok tt) ->
+  xcheck_prop_rules (fun k => amem k (xpresent e si sv props)) name p <> Ok tt ->
+  xserialize words pu (S f) e (XObject id un props (Some si)) v = Err (cerr_at [name] EPresence).
+Proof. exact struct_serialize_single_rule. Qed.
+Print Assumptions C17_struct_serialize_single_rule.
+
+(* the path of the error is the path to the fault, for every nesting of struct-mapped / map-based objects, lists,
+   references and scopes over leaves (and whole map-based subtrees: XU_embedded / XV_embedded) in the struct layer:
+   by induction on the position (fault_xu / fault_xv / fault_xs, Proofs/C17StructPos.v).  Not covered by the
+   relations: maps and one-ofs over struct-mapped members, `any`, the single-property shorthand, Serialize of lists. *)
+Theorem C17_struct_single_fault_path_unserialize : forall words pu e f s v q, fault_xu words pu e f s v q ->
+  exists c, xunser words pu f e s v = Err (mkErr true q c).
+Proof. exact struct_single_fault_path_unser. Qed.
+Print Assumptions C17_struct_single_fault_path_unserialize.
+
+Theorem C17_struct_single_fault_path_validate : forall words pu e f s v q, fault_xv words pu e f s v q ->
+  exists c, xvalidate words pu f e s v = Err (mkErr true q c).
+Proof. exact struct_single_fault_path_validate. Qed.
+Print Assumptions C17_struct_single_fault_path_validate.
+
+Theorem C17_struct_single_fault_path_serialize : forall words pu e f s v q, fault_xs words pu e f s v q ->
+  exists c, xserialize words pu f e s v = Err (mkErr true q c).
+Proof. exact struct_single_fault_path_serialize. Qed.
+Print Assumptions C17_struct_single_fault_path_serialize.
+
+(* non-vacuity: XNested{In: {1,"qq"}, P: &{1,"q"}, X: 3} / {"in": {"b": "qq"}, "p": {"b": "q"}, "x": 3} - the position
+   ["p"; "b"] is reached through the struct-mapped XNested, the reference and the struct-mapped XInner *)
+Example C17_struct_position_instance :
+  fault_xu w_words w_pu c17s_env 12 c17s_nested (obj_val t_any_map false c17s_raw) ["p"; "b"] /\
+  fault_xv w_words w_pu c17s_env 12 c17s_nested c17s_native ["p"; "b"] /\
+  fault_xs w_words w_pu c17s_env 12 c17s_nested c17s_native ["p"; "b"].
+Proof. exact (conj c17s_pos_unser_ex (conj c17s_pos_validate_ex c17s_pos_serialize_ex)). Qed.
